@@ -26,7 +26,8 @@ DESIGN_REF = "6/C13"
 LEAN_MODULES = ["Clikit.Props.C13"]
 REQUIRED_THEOREMS = ["Clikit.Props.C13." + n for n in (
     "help_total", "help_complete", "help_names", "help_inherits", "help_hides", "help_width", "help_width_pages",
-    "help_wrap_contract", "help_same_page", "help_same_page_partial")]
+    "help_wrap_contract", "help_same_page", "help_same_page_partial", "help_same_page_facts", "help_same_page_default",
+    "dApp_same_page")]
 TECHNIQUE = ("Lean 4 theorems on a model of ApplicationHelp / CommandHelp / BlockLayout / LabelAlignment / "
              "LabeledParagraph / Paragraph and of the help resolver, parametric in textwrap.wrap (contract: every line fits "
              "the requested width), + differential correspondence of whole pages on generated configurations x widths x "
@@ -39,14 +40,27 @@ LEVEL_TEXT = ("Proved in Lean for EVERY configuration tree, terminal width and w
               "named (sub-)command is an element of the page; the command entries of a page are exactly the visible ones (no "
               "hidden, disabled or anonymous command); every rendered line is shorter than the terminal (and on a narrower "
               "terminal than widthOK allows rendering does fail: the margin is exact); `help <path>` and `<path> --help|-h` "
-              "hand the resolver the same leading names, so it walks to the same command (help_same_page, unconditional); the "
-              "page shown is the same given three facts about the parser (the help command receives the path in both spellings, "
-              "the switch changes no parse outcome) - help_same_page_partial, with the full statement kept as "
-              "help_same_page_full. The model is tied to the code by comparing whole pages on generated configurations.")
-LEVEL_NOTE = ("Trusted: Lean kernel + standard axioms; the hand-written page/layout/resolver models (modelled, not verified; "
+              "hand the resolver the same leading names, so it walks to the same command (help_same_page, unconditional); and the "
+              "PAGE SHOWN IS THE SAME, or both fail with the same error (help_same_page_default: helpTarget(help <path>) = "
+              "helpTarget(<path> --help|-h)), with NO hypothesis about what the parser returns - only about the shape of the "
+              "command tree: the path is name-like tokens and does not start with help (or an alias of it); "
+              "get_command('help') is wired as in DefaultApplicationConfig (HelpCmd: named help, not anonymous, no sub-commands, "
+              "format = command name help + the optional multi-valued string argument `command` + the switch as a flag); every "
+              "command of the tree (InTree) declares the switch as a flag (FlagOf: found under its long name resp. short name, "
+              "accepts no value). Proved through: a declared flag appended to a line of names changes no parse outcome in "
+              "either mode (parse_flag_appended); the help resolver only parses with commands of the tree "
+              "(helpResolve_congr_tree); the help command receives the path in both spellings - typed name vs. re-inserted "
+              "omitted name (resolve_help, help_parse_switch; summarised as help_same_page_facts); instantiated on a concrete "
+              "default-configuration application (dApp_same_page). help_same_page_partial (any switch token, any wiring, under "
+              "three explicit parser facts, statement help_same_page_full) is kept for non-default configurations. "
+              "The model is tied to the code by comparing whole pages on generated configurations.")
+LEVEL_NOTE = ("Trusted: Lean kernel + standard axioms; the hand-written page/layout/resolver/parser models (modelled, not verified; "
               "compared with the real pages on every generated case); textwrap.wrap, json.dumps, str.format, pastel as "
               "external engines (wrap: modelled + compared on every call; tags: only the tags the help pages emit). Labels are "
-              "modelled by their visible text.")
+              "modelled by their visible text. help_same_page_default assumes the default wiring (HelpCmd / FlagOf on every "
+              "format of the tree) as hypotheses on the model tree; that the trees read from real DefaultApplicationConfig "
+              "applications satisfy them is not proved (the correspondence only compares the three spellings of help on "
+              "those trees with the real output).")
 RULE = ("gen_tree configurations (depth<=3, fan-out<=3, aliases, default/anonymous/hidden/disabled) extended with 0-3 "
         "arguments / 0-3 options of every kind, descriptions absent/short/long, defaults of every type, help texts; on the "
         "default application config; x widths (quick: 6 per configuration from 40..200 plus narrow ones around the minimum; "
